@@ -93,9 +93,10 @@ pub mod fastq {
     pub open spec fn c4(b: Seq<u8>, s: int) -> int { nl(b, nl(b, nl(b, nl(b, s) + 1) + 1) + 1) }
 
     /// the first k line starts after the record start have been found and stored (k = 4: record end too)
-    spec fn chain(b: Seq<u8>, bp: BufferPosition, k: int) -> bool {
+    spec fn chain(b: Seq<u8>, bp: BufferPosition, k: int) -> bool { bp.pos.0 <= b.len() && chain_body(b, bp, k) }
+    #[verifier::opaque]
+    spec fn chain_body(b: Seq<u8>, bp: BufferPosition, k: int) -> bool {
         let s = bp.pos.0 as int;
-        &&& s <= b.len()
         &&& (k >= 1 ==> c1(b, s) < b.len() && bp.seq == c1(b, s) + 1)
         &&& (k >= 2 ==> c2(b, s) < b.len() && bp.sep == c2(b, s) + 1)
         &&& (k >= 3 ==> c3(b, s) < b.len() && bp.qual == c3(b, s) + 1)
@@ -232,6 +233,7 @@ pub mod fastq {
             &&& (k >= 1 ==> bp.seq >= c) && (k >= 2 ==> bp.sep >= c) && (k >= 3 ==> bp.qual >= c)
         })
     {
+        reveal(chain_body);
         let c = bp.pos.0 as int;
         let n = b.len() as int;
         let b2 = b.subrange(c, n);
@@ -314,11 +316,32 @@ pub mod fastq {
         assert(f.subrange(a + s, f.len() as int) =~= b.subrange(s, n));
     }
 
+    /// what a complete position means in terms of the nl chain
+    proof fn lemma_complete_facts(b: Seq<u8>, bp: BufferPosition)
+        requires bp.complete(b)
+        ensures ({ let s = bp.pos.0 as int;
+            &&& s <= c1(b, s) < c2(b, s) < c3(b, s) < c4(b, s) <= b.len()
+            &&& bp.seq == c1(b, s) + 1 && bp.sep == c2(b, s) + 1 && bp.qual == c3(b, s) + 1 && bp.pos.1 == c4(b, s) })
+    {
+        reveal(chain_body);
+        lemma_chain_bounds(b, bp.pos.0 as int);
+    }
+    /// stuck(k) implies chain(k) and weaker chains
+    proof fn lemma_stuck_facts(b: Seq<u8>, bp: BufferPosition, k: int)
+        requires stuck(b, bp, k), 0 <= k <= 3
+        ensures chain(b, bp, k), (k == 3 ==> c3(b, bp.pos.0 as int) < b.len() && c4(b, bp.pos.0 as int) == b.len()),
+                (k < 3 ==> c3(b, bp.pos.0 as int) == b.len())
+    {
+        reveal(chain_body);
+        lemma_chain_bounds(b, bp.pos.0 as int);
+    }
+
     /// appending bytes does not disturb the line starts already found
     proof fn lemma_chain_prefix(b: Seq<u8>, b2: Seq<u8>, bp: BufferPosition, k: int)
         requires chain(b, bp, k), 0 <= k <= 4, b.len() <= b2.len(), b2.subrange(0, b.len() as int) == b
         ensures chain(b2, bp, k)
     {
+        reveal(chain_body);
         let s = bp.pos.0 as int;
         let n = b.len() as int;
         lemma_chain_bounds(b, s);
@@ -334,6 +357,7 @@ pub mod fastq {
         requires 0 <= a, a + b.len() <= f.len(), b == f.subrange(a, a + b.len()), stuck(b, bp, k), 0 <= k <= 3
         ensures c4(f, a + bp.pos.0) >= a + b.len()
     {
+        reveal(chain_body);
         let n = b.len() as int;
         let s = bp.pos.0 as int;
         lemma_chain_bounds(b, s);
@@ -357,8 +381,9 @@ pub mod fastq {
                 bp.pos.0 <= bp.pos.1, a + bp.pos.1 + 1 <= f.len(),
                 true_line(f, a + bp.pos.1 + 1) + 4 <= u64::MAX,
     {
+        reveal(chain_body);
         let s = bp.pos.0 as int;
-        lemma_chain_bounds(b, s);
+        lemma_complete_facts(b, bp);
         lemma_group_lift(f, a, b, s);
         lemma_group_lines(f, a + s);
         lemma_count_lf_mono(f, 0, a + bp.pos.1 + 1);
@@ -385,6 +410,37 @@ pub mod fastq {
         0 <= p < f.len() && (
             (group_complete(f, p) && verr(e, f, p, line))
             || (!group_complete(f, p) && !all_blank(f.subrange(p, f.len() as int), 0) && eerr(e, f, p, line)))
+    }
+
+    /// the three fields of the record that bp describes in b
+    spec fn recv(bp: BufferPosition, b: Seq<u8>) -> (Seq<u8>, Seq<u8>, Seq<u8>) {
+        (g_head(b, bp.pos.0 as int), g_seq(b, bp.pos.0 as int), g_qual(b, bp.pos.0 as int))
+    }
+    /// file offset of the i-th group counting from p (groups taken as they come, each ending at its fourth terminator)
+    pub open spec fn gstart(f: Seq<u8>, p: int, i: int) -> int
+        decreases i
+    {
+        if i <= 0 { p } else { c4(f, gstart(f, p, i - 1)) + 1 }
+    }
+    /// the first k groups from p are complete and valid records
+    pub open spec fn run_ok(f: Seq<u8>, p: int, k: int) -> bool {
+        forall|i: int| 0 <= i < k ==> group_complete(f, #[trigger] gstart(f, p, i)) && vok(f, gstart(f, p, i))
+    }
+
+    /// a validated, terminated record stays what it is when bytes are appended to the buffer
+    proof fn lemma_valid_prefix(b: Seq<u8>, b2: Seq<u8>, bp: BufferPosition)
+        requires bp.valid(b), bp.pos.1 < b.len(), b.len() <= b2.len(), b2.subrange(0, b.len() as int) == b
+        ensures bp.valid(b2), bp.pos.1 < b2.len(),
+                g_head(b2, bp.pos.0 as int) == g_head(b, bp.pos.0 as int),
+                g_seq(b2, bp.pos.0 as int) == g_seq(b, bp.pos.0 as int),
+                g_qual(b2, bp.pos.0 as int) == g_qual(b, bp.pos.0 as int),
+    {
+        reveal(chain_body);
+        let s = bp.pos.0 as int;
+        lemma_chain_bounds(b, s);
+        lemma_nl_bounds(b, s);
+        assert(b == b2.subrange(0, b.len() as int));
+        lemma_group_lift(b2, 0, b, s);
     }
 
 //@impl_open fastq::BufferPosition::reset
@@ -499,15 +555,15 @@ pub mod fastq {
             old(self).position.line + 4 <= u64::MAX,
         ensures
             [C02,C06|fastq.search.frame] final(self).same_io(old(self)) && final(self).buf_pos.pos.0 == old(self).buf_pos.pos.0,
-            [C02|fastq.search.found] r matches Ok(true) ==> chain(final(self).b(), final(self).buf_pos, 4) && vok(final(self).b(), final(self).buf_pos.pos.0 as int)
+            [C02|fastq.search.found] r matches Ok(true) ==> final(self).buf_pos.valid(final(self).b()) && final(self).buf_pos.pos.1 < final(self).b().len()
                 && final(self).state == old(self).state && final(self).incomplete_pos == old(self).incomplete_pos,
             [C02|fastq.search.incomplete] r matches Ok(false) ==> (final(self).incomplete_pos matches Some(k) && stuck(final(self).b(), final(self).buf_pos, rp(k)))
                 && final(self).state == old(self).state,
-            [C02,C17|fastq.search.error] r matches Err(e) ==> chain(final(self).b(), final(self).buf_pos, 4)
+            [C02,C17|fastq.search.error] r matches Err(e) ==> final(self).buf_pos.complete(final(self).b()) && final(self).buf_pos.pos.1 < final(self).b().len()
                 && verr(e, final(self).b(), final(self).buf_pos.pos.0 as int, final(self).position.line as int)
                 && final(self).state == State::Finished && final(self).incomplete_pos == old(self).incomplete_pos,
 //@body_start
-        proof { lemma_chain_bounds(self.b(), self.buf_pos.pos.0 as int); }
+        proof { reveal(chain_body); lemma_chain_bounds(self.b(), self.buf_pos.pos.0 as int); }
 //@end
 
 //@fn fastq::Reader::search_incomplete ret=r tags=C02,C06
@@ -518,15 +574,15 @@ pub mod fastq {
             old(self).position.line + 4 <= u64::MAX,
         ensures
             [C02,C06|fastq.search_incomplete.frame] final(self).same_io(old(self)) && final(self).buf_pos.pos.0 == old(self).buf_pos.pos.0,
-            [C02|fastq.search_incomplete.found] r matches Ok(None) ==> chain(final(self).b(), final(self).buf_pos, 4) && vok(final(self).b(), final(self).buf_pos.pos.0 as int)
+            [C02|fastq.search_incomplete.found] r matches Ok(None) ==> final(self).buf_pos.valid(final(self).b()) && final(self).buf_pos.pos.1 < final(self).b().len()
                 && final(self).state == old(self).state && final(self).incomplete_pos is None,
             [C02|fastq.search_incomplete.incomplete] r matches Ok(Some(k)) ==> stuck(final(self).b(), final(self).buf_pos, rp(k)) && rp(k) >= rp(pos)
                 && final(self).incomplete_pos == Some(k) && final(self).state == old(self).state,
-            [C02,C17|fastq.search_incomplete.error] r matches Err(e) ==> chain(final(self).b(), final(self).buf_pos, 4)
+            [C02,C17|fastq.search_incomplete.error] r matches Err(e) ==> final(self).buf_pos.complete(final(self).b()) && final(self).buf_pos.pos.1 < final(self).b().len()
                 && verr(e, final(self).b(), final(self).buf_pos.pos.0 as int, final(self).position.line as int)
                 && final(self).state == State::Finished && final(self).incomplete_pos is None,
 //@body_start
-        proof { lemma_chain_bounds(self.b(), self.buf_pos.pos.0 as int); }
+        proof { reveal(chain_body); lemma_chain_bounds(self.b(), self.buf_pos.pos.0 as int); }
 //@end
 
 //@fn fastq::Reader::grow ret=r tags=C09,C06,C03
@@ -562,7 +618,7 @@ pub mod fastq {
             [C03,C06|fastq.make_room.frame] final(self).position == old(self).position && final(self).state == old(self).state
                 && final(self).incomplete_pos == old(self).incomplete_pos && final(self).buf_policy == old(self).buf_policy,
 //@body_start
-        proof { lemma_chain_shift(self.b(), self.buf_pos, rp(incomplete_pos)); }
+        proof { reveal(chain_body); lemma_chain_shift(self.b(), self.buf_pos, rp(incomplete_pos)); }
 //@end
 
 //@fn fastq::Reader::validate ret=r tags=C02,C12,C17,C06
@@ -578,7 +634,7 @@ pub mod fastq {
             [C02,C12,C17|fastq.validate.err] r matches Err(e) ==> verr(e, final(self).b(), final(self).buf_pos.pos.0 as int, final(self).position.line as int)
                 && final(self).state == State::Finished,
 //@body_start
-        proof { reveal(may_accept); reveal(may_reject); reveal(verr_body); lemma_chain_bounds(self.b(), self.buf_pos.pos.0 as int); }
+        proof { reveal(chain_body); reveal(may_accept); reveal(may_reject); reveal(verr_body); lemma_chain_bounds(self.b(), self.buf_pos.pos.0 as int); }
 //@end
 
 //@fn fastq::Reader::get_error_pos ret=r tags=C17,C06
@@ -620,7 +676,7 @@ pub mod fastq {
                           && eerr(e, final(self).b(), final(self).buf_pos.pos.0 as int, final(self).position.line as int),
             },
 //@body_start
-        proof { reveal(eerr_body); lemma_chain_bounds(self.b(), self.buf_pos.pos.0 as int); }
+        proof { reveal(chain_body); reveal(eerr_body); lemma_chain_bounds(self.b(), self.buf_pos.pos.0 as int); }
 //@closure 0 params="c: &u8" ret="(r: bool)"
             ensures r == (*c == 10u8)
 //@closure 1 params="l: &[u8]" ret="(r: bool)"
@@ -738,6 +794,9 @@ pub mod fastq {
                      && (final(self).clean() ==> fmt_err(e, final(self).f(), final(self).gpos(), final(self).position.line as int)),
             },
             [C06,C02|fastq.resume.err_terminal] r is Err ==> final(self).state == State::Finished,
+            [C04,C03|fastq.resume.no_compaction_when_told] !make_room ==> final(self).base() == old(self).base()
+                && final(self).buf_pos.pos.0 == old(self).buf_pos.pos.0
+                && old(self).b().len() <= final(self).b().len() && final(self).b().subrange(0, old(self).b().len() as int) == old(self).b(),
             [C09|fastq.resume.capacity_monotone] final(self).buf_reader.cap() >= old(self).buf_reader.cap(),
             [C09|fastq.resume.growth_only_when_record_does_not_fit] make_room && final(self).buf_reader.cap() > old(self).buf_reader.cap() ==>
                 c4(final(self).f(), final(self).gpos()) - final(self).gpos() >= old(self).buf_reader.cap(),
@@ -750,6 +809,8 @@ pub mod fastq {
                 [C02,C03|fastq.resume.inv.stuck] stuck(self.b(), self.buf_pos, rp(incomplete_pos)),
                 [C14|fastq.resume.inv.errs] self.buf_reader.errs() == old(self).buf_reader.errs(),
                 [C06|fastq.resume.inv.state] self.state == old(self).state,
+                [C04,C03|fastq.resume.inv.no_compaction] !make_room ==> self.base() == old(self).base() && self.buf_pos.pos.0 == old(self).buf_pos.pos.0
+                    && old(self).b().len() <= self.b().len() && self.b().subrange(0, old(self).b().len() as int) == old(self).b(),
                 [C09|fastq.resume.inv.capacity] self.buf_reader.cap() >= old(self).buf_reader.cap()
                     && (make_room && self.buf_reader.cap() > old(self).buf_reader.cap() ==>
                         c4(self.f(), self.gpos()) - self.gpos() >= old(self).buf_reader.cap()),
@@ -760,6 +821,7 @@ pub mod fastq {
                 proof {
                     // the buffer is not full although it was filled: it holds the end of the input
                     let (ff, a, bb, s) = (self.f(), self.base(), self.b(), self.buf_pos.pos.0 as int);
+                    lemma_stuck_facts(bb, self.buf_pos, rp(incomplete_pos));
                     lemma_chain_bounds(bb, s);
                     if bb.len() > 0 && self.clean() {
                         if rp(incomplete_pos) == 3 { lemma_group_lift(ff, a, bb, s); } else { lemma_tail_lift(ff, a, bb, s); }
@@ -773,6 +835,7 @@ pub mod fastq {
             let ghost b_before = self.b();
 //@before /if let Some\(pos\) = self\.search_incomplete/
             proof {
+                lemma_stuck_facts(b_before, self.buf_pos, rp(incomplete_pos));
                 lemma_chain_prefix(b_before, self.b(), self.buf_pos, rp(incomplete_pos));
                 let (ff, a, bb, s) = (self.f(), self.base(), self.b(), self.buf_pos.pos.0 as int);
                 lemma_chain_bounds(bb, s);
@@ -837,7 +900,7 @@ pub mod fastq {
 //@before /Some\(Ok\(RefRecord \{/
         proof {
             let (ff, a, bb, s) = (self.f(), self.base(), self.b(), self.buf_pos.pos.0 as int);
-            lemma_chain_bounds(bb, s);
+            lemma_complete_facts(bb, self.buf_pos);
             lemma_nl_bounds(bb, s);
             if self.clean() { lemma_group_lift(ff, a, bb, s); }
         }
@@ -945,15 +1008,15 @@ impl<'a> RefRecord<'a> {
     spec fn qual_s(&self) -> Seq<u8> { self.qual_v() }
 //@fn fastq::Record for RefRecord::head ret=r tags=C13,C12,C06
 //@body_start
-        proof { lemma_chain_bounds(self.buffer@, self.buf_pos.pos.0 as int); lemma_nl_bounds(self.buffer@, self.buf_pos.pos.0 as int); }
+        proof { reveal(chain_body); lemma_chain_bounds(self.buffer@, self.buf_pos.pos.0 as int); lemma_nl_bounds(self.buffer@, self.buf_pos.pos.0 as int); }
 //@end
 //@fn fastq::Record for RefRecord::seq ret=r tags=C13,C12,C06
 //@body_start
-        proof { lemma_chain_bounds(self.buffer@, self.buf_pos.pos.0 as int); }
+        proof { reveal(chain_body); lemma_chain_bounds(self.buffer@, self.buf_pos.pos.0 as int); }
 //@end
 //@fn fastq::Record for RefRecord::qual ret=r tags=C13,C12,C06
 //@body_start
-        proof { lemma_chain_bounds(self.buffer@, self.buf_pos.pos.0 as int); }
+        proof { reveal(chain_body); lemma_chain_bounds(self.buffer@, self.buf_pos.pos.0 as int); }
 //@end
 }
 
@@ -1033,7 +1096,7 @@ trait RecordD {
             [C11|fastq.write_unchanged] r is Ok ==> writer.fin() == writer.written() + self.raw_v() + seq![10u8],
 //@body_start
         broadcast use io::resolve_law_b;
-        proof { lemma_chain_bounds(self.buffer@, self.buf_pos.pos.0 as int); }
+        proof { reveal(chain_body); lemma_chain_bounds(self.buffer@, self.buf_pos.pos.0 as int); }
 //@end
 }
 
@@ -1065,10 +1128,7 @@ trait RecordD {
         }
         /// number of records / i-th record as (head, seq, qual)
         spec fn n(&self) -> int { self.buf_positions@.len() as int }
-        spec fn rec(&self, i: int) -> (Seq<u8>, Seq<u8>, Seq<u8>) {
-            let s = self.buf_positions@[i].pos.0 as int;
-            (g_head(self.buffer@, s), g_seq(self.buffer@, s), g_qual(self.buffer@, s))
-        }
+        spec fn rec(&self, i: int) -> (Seq<u8>, Seq<u8>, Seq<u8>) { recv(self.buf_positions@[i], self.buffer@) }
     }
 
 //@impl_open fastq::RecordSet::len
@@ -1121,6 +1181,153 @@ trait RecordD {
             [C20,C06|fastq.RecordSetIter.next.frame] final(self).iwf() && final(self).buffer == old(self).buffer,
 //@closure 0 params="p: &'a BufferPosition" ret="(q: RefRecord<'a>)"
             ensures q.buffer == self.buffer && q.buf_pos == p
+//@end
+}
+
+//@impl_open fastq::Reader::read_record_set_exact
+    /// loop invariant of read_record_set_exact, in three parts (k = number of positions collected so far, o = reader at entry)
+    spec fn rs_a(&self, o: &Self, rset: &RecordSet, is_new: bool, n_records: Option<usize>) -> bool {
+        let k = rset.n();
+        &&& self.wf0() && self.filled() && self.f() == o.f() && self.buf_reader.errs() == o.buf_reader.errs()
+        &&& (self.state == State::Positioned || self.state == State::Finished)
+        &&& self.position.byte == self.gpos() && self.buf_pos.pos.0 <= self.b().len() + 1 && self.position.byte <= self.f().len() + 1
+        &&& (self.state == State::Positioned ==> self.buf_pos.pos.0 <= self.b().len() && self.coords()
+                && (self.incomplete_pos matches Some(j) ==> stuck(self.b(), self.buf_pos, rp(j))))
+        &&& (n_records matches Some(m) ==> k <= m)
+        &&& (self.state == State::Finished ==> k >= 1)
+    }
+    spec fn rs_b(&self, rset: &RecordSet) -> bool {
+        let k = rset.n();
+        forall|i: int| 0 <= i < k ==> (#[trigger] rset.buf_positions@[i]).valid(self.b())
+                && (rset.buf_positions@[i].pos.1 < self.b().len() || (i == k - 1 && self.state == State::Finished))
+    }
+    spec fn rs_c(&self, o: &Self, rset: &RecordSet) -> bool {
+        let k = rset.n();
+        let p0 = o.cursor();
+        o.clean() && !o.poisoned() ==> {
+                &&& run_ok(self.f(), p0, k)
+                &&& (forall|i: int| 0 <= i < k ==> recv(#[trigger] rset.buf_positions@[i], self.b())
+                        == (g_head(self.f(), gstart(self.f(), p0, i)), g_seq(self.f(), gstart(self.f(), p0, i)), g_qual(self.f(), gstart(self.f(), p0, i))))
+                &&& (self.state == State::Positioned ==> self.gpos() == gstart(self.f(), p0, k))
+                &&& (self.state == State::Finished ==> end_ok(self.f(), gstart(self.f(), p0, k)))
+            }
+    }
+
+//@fn fastq::Reader::read_record_set_exact ret=r tags=C04,C03,C05,C06,C09,C14
+//@spec
+        requires
+            old(self).wf(), old(rset).wf(),
+            n_records != Some(0usize),
+        ensures
+            [C06,C04|fastq.read_set.wf] final(self).wf() && final(self).f() == old(self).f() && final(rset).wf(),
+            [C04|fastq.read_set.ok] r matches Some(Ok(_)) ==> final(rset).n() >= 1 && final(self).buf_reader.errs() == old(self).buf_reader.errs()
+                && old(self).state != State::Finished
+                && (n_records matches Some(m) ==> final(rset).n() <= m)
+                && (old(self).clean() && !old(self).poisoned() ==> ({
+                    let (ff, p0, k) = (old(self).f(), old(self).cursor(), final(rset).n());
+                    &&& run_ok(ff, p0, k)
+                    &&& forall|i: int| 0 <= i < k ==> #[trigger] final(rset).rec(i) == (g_head(ff, gstart(ff, p0, i)), g_seq(ff, gstart(ff, p0, i)), g_qual(ff, gstart(ff, p0, i)))
+                    &&& (final(self).state != State::Finished ==> final(self).cursor() == gstart(ff, p0, k))
+                    &&& (final(self).state == State::Finished ==> end_ok(ff, gstart(ff, p0, k)))
+                    &&& (n_records matches Some(m) ==> k == m || final(self).state == State::Finished)
+                })),
+            [C05|fastq.read_set.position] r matches Some(Ok(_)) && old(self).clean() && !old(self).poisoned() && final(self).state != State::Finished ==>
+                final(self).position.byte == gstart(old(self).f(), old(self).cursor(), final(rset).n())
+                && final(self).position.line == true_line(old(self).f(), final(self).position.byte as int),
+            [C04,C06|fastq.read_set.none] r is None ==> final(self).buf_reader.errs() == old(self).buf_reader.errs() && final(self).state == State::Finished
+                && (old(self).state == State::Finished || old(self).poisoned() || !old(self).clean() || end_ok(old(self).f(), old(self).cursor())),
+            [C06|fastq.read_set.err_terminal] r matches Some(Err(e)) ==>
+                (final(self).state == State::Finished || (old(self).state == State::New && final(self).state == State::New && e is Io)),
+            [C14|fastq.read_set.err_io] r matches Some(Err(e)) ==> (match e {
+                    Error::Io(x) => final(self).buf_reader.errs() == old(self).buf_reader.errs().push(x),
+                    _ => final(self).buf_reader.errs() == old(self).buf_reader.errs() }),
+            [C04,C17|fastq.read_set.err_format] r matches Some(Err(e)) ==> (fmt_variant(e) ==> old(self).state != State::Finished
+                && (!old(self).poisoned() && old(self).clean() ==> exists|j: int| 0 <= j && run_ok(old(self).f(), old(self).cursor(), j)
+                    && #[trigger] fmt_err(e, old(self).f(), gstart(old(self).f(), old(self).cursor(), j), true_line(old(self).f(), gstart(old(self).f(), old(self).cursor(), j))))),
+//@body_start
+        proof {
+            lemma_count_lf_mono(self.f(), 0, self.position.byte as int);
+            if self.state == State::Parsing { lemma_advance(self.f(), self.base(), self.b(), self.buf_pos); }
+        }
+//@loop 0 kw=while
+            invariant_except_break
+                n_records matches Some(m) ==> rset.n() < m,
+                self.state != State::Finished && self.incomplete_pos is Some && rset.n() > 0 ==> !is_new,
+            invariant
+                [C04,C06|fastq.read_set.inv.state] self.rs_a(old(self), rset, is_new, n_records),
+                [C04,C06|fastq.read_set.inv.positions_valid] self.rs_b(rset),
+                [C04|fastq.read_set.inv.records_are_the_next_k] self.rs_c(old(self), rset),
+                n_records != Some(0usize), old(self).state != State::Finished,
+            ensures
+                [C04|fastq.read_set.loop_exit_nonempty] rset.n() >= 1,
+                [C04|fastq.read_set.loop_exit_exact_or_end] n_records matches Some(m) ==> rset.n() == m || self.state == State::Finished,
+            decreases
+                self.f().len() + 2 - self.gpos(),
+                (if self.incomplete_pos is Some { 0int } else { 1int }),
+//@before /if let Some\(pos\) = self\.incomplete_pos\.take\(\)/
+            let ghost b0 = self.b();
+            let ghost k0 = rset.n();
+            proof {
+                lemma_count_lf_mono(self.f(), 0, self.position.byte as int);
+                let (ff, a, bb, s) = (self.f(), self.base(), self.b(), self.buf_pos.pos.0 as int);
+                lemma_chain_bounds(bb, s);
+                if bb.len() > 0 && c4(bb, s) < bb.len() && self.clean() { lemma_group_lift(ff, a, bb, s); }
+            }
+//@before /rset\.buf_positions\.clear\(\);\s*return Some\(Err\(e\)\);/ nth=0
+                        proof {
+                            let (ff, p0) = (old(self).f(), old(self).cursor());
+                            if old(self).clean() && !old(self).poisoned() && fmt_variant(e) {
+                                assert(run_ok(ff, p0, k0) && fmt_err(e, ff, gstart(ff, p0, k0), true_line(ff, gstart(ff, p0, k0))));
+                            }
+                        }
+//@before /rset\.buf_positions\.clear\(\);\s*return Some\(Err\(e\)\);/ nth=1
+                        proof {
+                            let (ff, p0) = (old(self).f(), old(self).cursor());
+                            if old(self).clean() && !old(self).poisoned() && fmt_variant(e) {
+                                assert(run_ok(ff, p0, k0) && fmt_err(e, ff, gstart(ff, p0, k0), true_line(ff, gstart(ff, p0, k0))));
+                            }
+                        }
+//@before /break;/ nth=0
+                        proof {
+                            let bb = self.b();
+                            assert(bb.subrange(0, b0.len() as int) =~= b0);
+                            assert(k0 > 0);
+                            assert forall|i: int| 0 <= i < k0 implies (#[trigger] rset.buf_positions@[i]).valid(bb) && rset.buf_positions@[i].pos.1 < bb.len()
+                                && recv(rset.buf_positions@[i], bb) == recv(rset.buf_positions@[i], b0) by {
+                                lemma_valid_prefix(b0, bb, rset.buf_positions@[i]);
+                            }
+                        }
+//@before /rset\.buf_positions\.push\(self\.buf_pos\.clone\(\)\);/
+            proof {
+                let (ff, a, bb, s) = (self.f(), self.base(), self.b(), self.buf_pos.pos.0 as int);
+                let p0 = old(self).cursor();
+                lemma_complete_facts(bb, self.buf_pos);
+                lemma_nl_bounds(bb, s);
+                // earlier positions survive the growth of the buffer (no compaction once k > 0)
+                if k0 > 0 {
+                    assert(bb.subrange(0, b0.len() as int) =~= b0);
+                    assert forall|i: int| 0 <= i < k0 implies (#[trigger] rset.buf_positions@[i]).valid(bb) && rset.buf_positions@[i].pos.1 < bb.len()
+                        && recv(rset.buf_positions@[i], bb) == recv(rset.buf_positions@[i], b0) by {
+                        lemma_valid_prefix(b0, bb, rset.buf_positions@[i]);
+                    }
+                }
+                if self.buf_pos.pos.1 < bb.len() { lemma_advance(ff, a, bb, self.buf_pos); }
+                if self.buf_pos.pos.1 < bb.len() || self.clean() {
+                    lemma_group_lift(ff, a, bb, s);
+                    assert(gstart(ff, p0, k0 + 1) == c4(ff, gstart(ff, p0, k0)) + 1);
+                }
+            }
+//@before /rset\.buffer\.clear\(\);/
+        proof { broadcast use axiom_ref_items_slice; }
+//@end
+
+//@fn fastq::Reader::read_record_set ret=r tags=C04,C09
+//@spec
+        requires
+            old(self).wf(), old(rset).wf(),
+        ensures
+            [C04|fastq.read_record_set.is_exact_none] final(self).wf() && final(rset).wf() && final(self).f() == old(self).f()
+                && (r matches Some(Ok(_)) ==> final(rset).n() >= 1),
 //@end
 }
 
